@@ -89,6 +89,16 @@ mut("C13-revert-verbose-stdout-fix", "fintphase.c",
     "	else if (stabGetMeanings(stab, ablogFalse(), ssymTheStdout) == listNil(Syme))",
     "	else if (false)")
 
+# reverts of repairs found late (the check must see the defect come back)
+mut("C18-revert-explicit-name-fix", "emit.c",
+    "	if (emitOutputFileName[ft] &&\n	    !(emitInfoIsAXLmain(finfo) && (ft == FTYPENO_C || ft == FTYPENO_OBJECT)))\n		return emitOutputFileName[ft];",
+    "	if (emitOutputFileName[ft])\n		return emitOutputFileName[ft];")
+mut("C17-revert-lazylib-fatal-fix", "fint.c",
+    "	if (lib == NULL)\n		comsgFatal(NULL, ALDOR_F_CantOpen,\n			   strEqual(name, \"runtime\") ? \"libfoam.al\" : aoFile);",
+    "	if (lib == NULL)\n		LongJmp(fintJmpBuf, 1);")
+mut("C13-revert-syntax-error-undo-fix", "axlcomp.c",
+    "scopeBindSkipStep(stab);", "(void)stab;", count=2)
+
 
 def main():
     out = os.path.join(os.path.dirname(os.path.abspath(__file__)), "mutants")
